@@ -573,6 +573,7 @@ def rule_leftover_and_recycle(ctx):
     if n < 8:
         ctx.fail(f"NO-LEFTOVER: only {n} entry points reach the acquire/release functions (confirmed: 11)")
     C12.flag_builders(ctx)   # declares and decides RECYCLE-RERUN
+    C08.rule_pair_count(ctx)  # PAIR-COUNT: as many auxiliary generators removed as added
 
 
 def variants(repo):
@@ -588,6 +589,7 @@ def variants(repo):
     return [
         V("OPF clean-up only for one exception type", _opf, replace_once("    except BaseException:\n        # remove the auxiliary elements also when the OPF fails or does not converge", "    except KeyError:\n        # remove the auxiliary elements when a lookup fails"), "NO-LEFTOVER"),
         V("slack voltage written only without results start", "pandapower/build_gen.py", replace_once('    if ppc.get("sequence", 1) == 1:\n        if calculate_voltage_angles:\n            ppc["bus"][eg_buses, VA]', '    if ppc.get("sequence", 1) == 1 and not net["_options"].get("init_results", False):\n        if calculate_voltage_angles:\n            ppc["bus"][eg_buses, VA]'), "INIT-SCOPE"),
+        V("clean-up counts only in-service dclines", au, in_function("_clean_up", lambda s: s.replace("dc_gens = net.gen.index[(len(net.gen) - len(net.dcline) * 2):]", "dc_gens = net.gen.index[(len(net.gen) - net.dcline.in_service.sum() * 2):]", 1)), "PAIR-COUNT"),
         V("recycled run refreshes trafo3w only without trafo", pf, replace_once('        if "trafo3w" in lookup:', '        elif "trafo3w" in lookup:'), "RECYCLE-RERUN"),
         V("lookups not reset in conversion", pd, lambda s: _drop_lookup_reset(s, "pd2ppc"), "STALE-READ",
           note="powerflow.py keeps its own reset, so runopp/calc_sc/runpp_3ph fire"),
